@@ -49,6 +49,11 @@ CONSUMERS = {
     # of a fiber's stack frame, fiber child (sub-def and abstract payload are the two above)
     "unmarshal-env": (["tuple"], None, "marshal"), "unmarshal-constants": (["tuple"], None, "marshal"),
     "unmarshal-fiber-env": (["tuple"], None, "marshal"), "unmarshal-fiber-child": (["tuple"], None, "marshal"),
+    # MARSHAL (then unmarshal, then compare the nesting) of values nested through the abstract types whose marshal hook
+    # calls back into the marshaller: compiled PEG holding a compiled PEG in its constant pool, channel holding a
+    # channel as queued item; directly or through a tuple / table
+    "marshal-abstract-peg": (["direct", "tuple", "table"], None, "marshal"),
+    "marshal-abstract-chan": (["direct", "tuple", "table"], None, "marshal"),
     "compile-destructure-head": (["btuple"], None, "compile"),
     "freeze": (DATA_KINDS, None, "freeze"), "thaw": (DATA_KINDS, None, "freeze"),
     "gc": (DATA_KINDS, None, "gc"), "gc-closures": (["tuple"], None, "gc"), "gc-fibers": (["tuple"], None, "gc"),
@@ -84,6 +89,9 @@ ENTRY_CONSUMERS = {
     "janet_ffi_write_one": ["ffi-write-chain"], "sysv64_classify_ext": ["ffi-sig-chain"],
     "unmarshal_one_def": ["unmarshal-defs", "unmarshal-constants"], "unmarshal_one_abstract": ["unmarshal-abstract"],
     "unmarshal_one_env": ["unmarshal-env", "unmarshal-fiber-env"], "unmarshal_one_fiber": ["unmarshal-fiber-child", "unmarshal-fiber-env"],
+    "marshal_one_abstract": ["marshal-abstract-peg", "marshal-abstract-chan"],
+    "janet_marshal_janet": ["marshal-abstract-peg", "marshal-abstract-chan"],
+    "janet_unmarshal_janet": ["unmarshal-abstract", "marshal-abstract-peg", "marshal-abstract-chan"],
 }
 GROUP_OF_PREFIX = [("janet_mark", "gc"), ("marshal_", "marshal"), ("unmarshal_", "marshal"), ("janetc_", "compile"),
                    ("peg_", "peg"), ("spec_", "peg"), ("janet_pretty", "print"), ("print_jdn", "print"),
@@ -93,6 +101,7 @@ GROUP_OF_PREFIX = [("janet_mark", "gc"), ("marshal_", "marshal"), ("unmarshal_",
 
 UNMARSHAL_EDGE_CONSUMERS = ["unmarshal-defs", "unmarshal-abstract", "unmarshal-env", "unmarshal-constants", "unmarshal-fiber-env",
                             "unmarshal-fiber-child"]
+MARSHAL_ABSTRACT_CONSUMERS = ["marshal-abstract-peg", "marshal-abstract-chan"]
 
 
 def depth_schedule(limits, tier, top):
@@ -404,6 +413,11 @@ def run(ctx, only=None):
                           % (pth[0], pth[1], pth[2], pth[3], pth[4], pth[5]))
             ctx.broken.append(broken[-1])
             ctx.say(broken[-1])
+        for a, b, operand, why in g.deptharg["unknown"]:
+            broken.append("marshal depth not handed on by %s (towards %s): `%s` - %s; the depth count restarts there "
+                          "[theorem cg_depth_arg_charged]" % (a, b, operand, why))
+            ctx.broken.append(broken[-1])
+            ctx.say(broken[-1])
         for cyc in g.deptharg["cycles"]:
             broken.append("marshal depth argument not charged on the call cycle %s [theorem cg_depth_arg_charged]" % " -> ".join(cyc))
             ctx.broken.append(broken[-1])
@@ -480,7 +494,7 @@ def run(ctx, only=None):
     if g and any(pth[1] == "peg_rule" for pth in g.unbalanced):
         suspects += ["peg-comb", "peg-match"]
     if g and g.deptharg["cycles"]:
-        suspects += ["marshal", "unmarshal"] + UNMARSHAL_EDGE_CONSUMERS
+        suspects += ["marshal", "unmarshal"] + UNMARSHAL_EDGE_CONSUMERS + MARSHAL_ABSTRACT_CONSUMERS
     if st and not st.all_transfer:
         suspects += ["nest-macro-compile", "nest-peg-cmt", "nest-qq"]
     # a linear recursion that survives depth D under 8 MB survives D/8 under 1 MB, and no C frame is smaller than 32
@@ -527,12 +541,18 @@ def run(ctx, only=None):
         ctx.say("sweep %s: %d consumer x kind combinations, %d runs, %d crashes (%.0fs)" % (
             label, len(table), sum(len(r) for r in table.values()), len(crashes) + len(cr2), time.time() - t0))
     # the image builders of the unmarshal consumers cut real images apart: they must work at depth 1 on this tree
-    for c in UNMARSHAL_EDGE_CONSUMERS + ["unmarshal"]:
+    for c in UNMARSHAL_EDGE_CONSUMERS + ["unmarshal"] + MARSHAL_ABSTRACT_CONSUMERS:
         for (cc, k), res in sorted(tables.get("plain-8MB", {}).items()):
             if cc == c and res and not str(res.get(min(res), "")).startswith("ok"):
                 broken.append("sweep consumer %s/%s does not work on this tree at depth %d: %s (image builder of harness/C19/sweep.janet no longer fits the marshal format)"
                               % (c, k, min(res), res.get(min(res))))
                 ctx.broken.append(broken[-1])
+    for (cc, k), res in sorted(tables.get("plain-8MB", {}).items()):
+        for d, r in sorted(res.items()):
+            if str(r).startswith("err:HARNESS"):
+                broken.append("sweep consumer %s/%s at depth %d: %s" % (cc, k, d, r))
+                ctx.broken.append(broken[-1])
+                break
     # report ---------------------------------------------------------------------------------------------------
     observations = []
     by_consumer = {}
@@ -633,7 +653,9 @@ def run(ctx, only=None):
         "counter_balance": None if not g else {"path_classes": len(g.balance), "unbalanced": g.unbalanced,
                                                "functions": sorted(set(pth[1] for pth in g.balance))},
         "depth_argument_charging": None if not g else {"functions": g.deptharg["fns"], "non_charging_edges": g.deptharg["zero"],
-                                                       "uncharged_cycles": g.deptharg["cycles"]},
+                                                       "uncharged_cycles": g.deptharg["cycles"],
+                                                       "depth_not_derived_from_caller": [list(u) for u in g.deptharg["unknown"]],
+                                                       "context_sites": [list(x) for x in g.deptharg["sites"] if x[1].startswith("janet_") or x[0].startswith("janet_")]},
         "callgraph": None if not g else {"functions": g.nfuncs, "call_sites": g.ncalls, "address_taken": len(g.ir.addr_taken),
                                          "cycle_functions": len(g.nodes), "sccs": len(g.comps), "guards": len(g.guard),
                                          "edges": len(g.edges), "unguarded_cycles": g.bad, "cut": g.cut,
